@@ -64,7 +64,7 @@ def catalogue(s):
             D.append({"k": "headpat", "n": nn})
             D.append({"k": "as_tank", "n": nn})
     for k in ("pdd", "mult2", "mult05", "pstart1h", "pstart90m", "hyd30", "hyd15all", "pat30", "pat2h", "rep2h",
-              "piecewise", "clock3h", "revorder"):
+              "piecewise", "clock3h", "revorder", "interp"):
         D.append({"k": k})
     return D
 
@@ -196,6 +196,13 @@ def apply(s, d):
         s["hw"] = "piecewise"
     elif k == "clock3h":
         o["clock"] = 3 * 3600
+    elif k == "interp":
+        # WNTR-only option: pattern values interpolated linearly inside a pattern period; the hydraulic step is made a
+        # fraction of the pattern step so that solved instants fall inside periods
+        o["interp"] = True
+        o["hyd"] = min(o["hyd"], o["pat"] // 2)
+        if o["rep"] != "ALL":
+            o["rep"] = o["hyd"]
     elif k == "revorder":
         # same network, elements registered in the opposite order (ids, matrix rows and result columns are positional)
         s["nodes"].reverse(); s["links"].reverse()
@@ -220,7 +227,7 @@ def compatible(d1, d2):
             return False
         return True
     if "l" not in d1 and "n" not in d1 and "l" not in d2 and "n" not in d2:
-        grp = lambda d: {"mult2": "m", "mult05": "m", "pstart1h": "ps", "pstart90m": "ps", "hyd30": "h", "hyd15all": "h",
+        grp = lambda d: {"mult2": "m", "mult05": "m", "pstart1h": "ps", "pstart90m": "ps", "hyd30": "h", "hyd15all": "h", "interp": "h",
                          "pat30": "p", "pat2h": "p", "rep2h": "r"}.get(d["k"], d["k"])
         if grp(d1) == grp(d2):
             return False
